@@ -133,6 +133,7 @@ func runBufShort(c *core.Ctx, o bufShortOpts) (ops []porcupine.Operation, hung s
 		}
 		call := core.Now()
 		err := b.Put(context.Background(), args...)
+		poisonArgs(args)
 		ret := core.Now()
 		es, _ := errClass(err)
 		h.add(porcupine.Operation{ClientId: client, Input: bIn{Kind: bPut, Vals: vs}, Call: call, Output: bOut{Err: es}, Return: ret})
@@ -369,4 +370,12 @@ func historySig(ops []porcupine.Operation, desc func(in, out interface{}) string
 		fmt.Fprintf(&sb, "%d:%s;", o.ClientId, desc(o.Input, o.Output))
 	}
 	return sb.String()
+}
+
+// poisonArgs overwrites a variadic argument slice after the call returned: the caller owns that slice again (a
+// producer reusing its batch slice), so a library that kept a reference to it would now show values nobody put.
+func poisonArgs(args []interface{}) {
+	for i := range args {
+		args[i] = -999
+	}
 }
